@@ -62,6 +62,18 @@ bytes (a hyperlink is not an SGR attribute: SGR 0 does not close it).  The FileP
 line alphabet LF (id-less links to two targets, one id for two targets, a link left open over the
 line end, a close without open, two links on one line) cut across write() calls like the others.
 
+Part 4, foreign SGR through ONE decoder instance (E1 + decoder history).  Sequences of 1, 2 and 3
+SGR escape sequences, each followed by one character, over an alphabet of 105 PARAMETER LISTS:
+every attribute-on code, every attribute-off code (22..29, 54, 55), "0" and the empty list,
+38;5;n / 48;5;n for n in {0, 1, 196}, 38;2;r;g;b / 48;2;r;g;b with every component in {0, 128, 255},
+basic colours and 39 / 49, combined lists (1;38;2;0;0;0, 0;1, 1;0, ...), truncated lists
+(38;5, 38;2;0;0, 38, 48;2), unknown codes; three layouts (one line / one sequence per line, i.e. the
+state crosses decode_line calls / per line inside an open OSC 8 link); driven through one
+``AnsiDecoder().decode`` and through a FileProxy (one write per line).  All pairs over the full
+alphabet, all triples over a 24-list (thorough 45-list) sub-alphabet.  Oracle: vf/term.py Decoder on
+the same bytes (palette entries 0-15 of 38;5;n are the standard colours).  Finding key =
+``sgr/<decoder|proxy>/after-<class of the parameter list after which the first character differs>``.
+
 Measured (the machine was shared with ~15 other jobs, load average 60-120, so wall times are
 upper bounds; CPU cost is ~0.65 ms per history and ~1.2 ms per round-trip line when unloaded):
   quick    278,283 judged cases (35.5 k lines + 242.8 k histories, 1.20 M write/flush calls),
@@ -1237,11 +1249,16 @@ def describe(tier, seed, res):
                 "[open] inner [close] sep over menus of %d / %d / %d segments (open: none, params ''/id=1/id=2/k=v x 2 targets ST, "
                 "3 BEL forms; inner: x, x-newline-y, x SGR1 y, x SGR0 y; close: none, ST, BEL, with id; sep: none, newline, z newline; "
                 "reduced menus for the longer sequences), compared per character with vf/term.py on the same bytes. "
+                "Part 4 (SG): all sequences of 1 and 2 SGR sequences over %d parameter lists (attribute on/off codes, 0, empty, "
+                "38/48;5;{0,1,196}, 38/48;2;{0,128,255}^3, basic colours, 39/49, combined, truncated, unknown) and all triples over "
+                "a %d-list sub-alphabet, each sequence followed by a character, x 3 layouts (inline, one per line, per line inside "
+                "an open hyperlink), through one AnsiDecoder and (pairs; thorough also triples) through a FileProxy, compared per "
+                "character with vf/term.py on the same bytes. "
                 "A case is non-trivial when a write boundary falls inside a line or a flush emits a partial line (part 2) / "
                 "when some character carries a style (part 1); distinct = distinct outcome signatures."
                 % (len(universe(tier)), len(pair_menu(tier)), len(triple_menu(tier)), sets,
                    len(_fd_menu(_fd_levels(tier)["F1"][1])), len(_fd_menu(_fd_levels(tier)["F2"][1])),
-                   len(_fd_menu(_fd_levels(tier)["F3"][1]))),
+                   len(_fd_menu(_fd_levels(tier)["F3"][1])), len(SG_FULL), len(SG_SMALL if tier == "quick" else SG_MID)),
         "assumptions": [
             "expected (char, attributes, colours, link) are computed from the style descriptions, not from rich.style",
             "terminal meaning of a stream = vf/term.py decoder (SGR state carried across lines; default colour == unset)",
@@ -1249,6 +1266,8 @@ def describe(tier, seed, res):
             "a flush strictly inside an escape sequence has no defined styling: such histories only have to run without exception",
             "foreign streams: SGR 0 resets attributes and colours but not an open OSC 8 hyperlink (VTE / xterm behaviour); "
             "OSC sequences end at ST or BEL",
+            "foreign SGR: ECMA-48 meanings as in vf/term.py (empty parameter = 0; 24 ends single and double underline; 25 ends "
+            "both blinks; 26 and other unknown codes change nothing); 38;5;n with n<16 is the standard colour n",
             "write() return values are not judged (the statement is silent)",
             "pending text that is never flushed before the display stops is not required to appear",
         ],
